@@ -79,6 +79,16 @@ GETTER_CONTRACT(tls_record_get_handshake_client_key_exchange_pke, 1);
 GETTER_CONTRACT(tls_record_get_handshake_certificate_verify, 1);
 /* Finished.verify_data is 12 bytes (TLCP / TLS 1.2) or 32 bytes */
 GETTER_CONTRACT(tls_record_get_handshake_finished, (*outlen == 12 || *outlen == 32) && *out != NULL);
+/* ServerHelloDone: no outputs; success only for an empty body of the right type, i.e. a 9-byte record */
+int tls_record_get_handshake_server_hello_done(const uint8_t *record)
+REQUIRES(record == NULL || REC_REQ(record))
+ASSIGNS()
+ENSURES(RET == 1 || RET == -1)
+ENSURES(record == NULL IMPLIES RET == -1)
+;
+#ifdef CONTRACT_TLCP_GETTERS
+GETTER_CONTRACT(tlcp_record_get_handshake_server_key_exchange_pke, 1);
+#endif
 #endif
 
 #ifdef CONTRACT_TLS_HELLO
@@ -175,5 +185,29 @@ ENSURES(RET == 1 || RET == -1)
 /* success: the signature is a slice of the record (possibly empty) and the algorithm was read from it */
 ENSURES(RET == 1 IMPLIES (*siglen == 0 ? *sig == NULL : REC_SLICE(*sig, *siglen, record)))
 ENSURES(RET == 1 IMPLIES (*sign_algor >= 0 && *sign_algor <= 65535))
+;
+#endif
+
+#ifdef CONTRACT_TLS13_GETTERS
+/* memory safety only: the function has no outputs; it accepts any handshake type (observation in DESIGN 7.6) */
+int tls13_record_get_handshake_encrypted_extensions(const uint8_t *record)
+REQUIRES(REC_REQ(record))
+ASSIGNS()
+ENSURES(RET == 1 || RET == -1)
+;
+GETTER_CONTRACT(tls13_record_get_handshake_finished, (*outlen == 32 || *outlen == 48) && *out != NULL);
+int tls13_record_get_handshake_certificate(const uint8_t *record, const uint8_t **cert_request_context, size_t *cert_request_context_len, const uint8_t **cert_list, size_t *cert_list_len)
+REQUIRES(REC_REQ(record) && WR_OK(cert_request_context, sizeof(*cert_request_context)) && WR_OK(cert_request_context_len, sizeof(size_t)) && WR_OK(cert_list, sizeof(*cert_list)) && WR_OK(cert_list_len, sizeof(size_t)))
+ASSIGNS(*cert_request_context, *cert_request_context_len, *cert_list, *cert_list_len)
+ENSURES(RET == 1 || RET == -1)
+ENSURES(RET == 1 IMPLIES ((*cert_request_context_len == 0 ? *cert_request_context == NULL : REC_SLICE(*cert_request_context, *cert_request_context_len, record))
+	&& *cert_list != NULL && *cert_list_len > 0 && REC_SLICE(*cert_list, *cert_list_len, record)))
+;
+int tls13_record_get_handshake_certificate_request(const uint8_t *record, const uint8_t **requst_context, size_t *request_context_len, const uint8_t **exts, size_t *exts_len)
+REQUIRES(REC_REQ(record) && WR_OK(requst_context, sizeof(*requst_context)) && WR_OK(request_context_len, sizeof(size_t)) && WR_OK(exts, sizeof(*exts)) && WR_OK(exts_len, sizeof(size_t)))
+ASSIGNS(*requst_context, *request_context_len, *exts, *exts_len)
+ENSURES(RET == 1 || RET == -1)
+ENSURES(RET == 1 IMPLIES ((*request_context_len == 0 ? *requst_context == NULL : REC_SLICE(*requst_context, *request_context_len, record))
+	&& (*exts_len == 0 ? *exts == NULL : REC_SLICE(*exts, *exts_len, record))))
 ;
 #endif
